@@ -212,6 +212,20 @@ CLAIMED.update({
              "evaluated in Python; errors raised by node constructors themselves are outside the Graph constructor.",
         technique="Coq proof (decision procedure <-> declarative well-formedness; fixed-point equation of the type judgement) + exhaustive flaw injection and differential correspondence",
     ),
+    "C07": dict(
+        category="proof",
+        text="Objects live in a heap model (Derive.v: shared references are shared locations, copies are fresh allocations, cached properties are "
+             "fields filled on first read). Proved for every history of bind / unbind / select / with_entrypoint / add_nodes / as_node / with_name / "
+             "with_inputs / with_outputs / map_over / cache-filling reads, including operations that raise: the view of every object that existed "
+             "before is unchanged afterwards (C07_views_never_change), results are new objects, siblings are independent. Tied to /repo by random "
+             "histories on the real objects: every live object is re-snapshotted through the public API after every operation (half of the objects "
+             "kept 'cold', i.e. without the harness's own cache fills), run results compared at creation and at the end, and the model's result "
+             "locations and final views compared with the real objects.",
+        design_ref="DESIGN.md section 5 C07",
+        note="Argument validation of bind/select/with_entrypoint is not modelled (failing calls are oracle-checked only); the structure hash and run "
+             "results are oracle-only.",
+        technique="Coq proof (heap frame invariant by induction over operation histories) + history oracle and differential correspondence",
+    ),
 })
 
 REASON_TODO = "not claimed yet: model/theorems for this property are not built in this revision (see DESIGN.md section 10)"
